@@ -26,13 +26,13 @@ class _Pipeline:
         return self + other
 
     def __rsub__(self, other) -> Self:
-        return self - other
+        return -self + other
 
     def __rmul__(self, other) -> Self:
         return self * other
 
     def __rtruediv__(self, other) -> Self:
-        return self / other
+        return self._rtruediv(other)
 
 
 class ImageProvider(_Pipeline, Generic[_R]):
@@ -126,6 +126,9 @@ class ImageProvider(_Pipeline, Generic[_R]):
         return self.__class__(lambda scale: -self(scale)).with_name(
             f"(-{self.__name__})"
         )
+
+    def _rtruediv(self, other) -> ImageProvider:
+        return self.__class__(lambda scale: other / self(scale))
 
 
 class ImageConverter(_Pipeline):
@@ -289,6 +292,9 @@ class ImageConverter(_Pipeline):
 
     def __neg__(self) -> ImageConverter:
         return self.__class__(lambda x, scale: -self(x, scale))
+
+    def _rtruediv(self, other) -> ImageConverter:
+        return self.__class__(lambda x, scale: other / self(x, scale))
 
 
 def assert_n_3d_arrays(out, func):
